@@ -56,6 +56,7 @@ type FuncContract struct {
 	NoFrame   bool
 	Assumed   bool // contract is assumed, body not verified (listed in evidence)
 	Props     []string // properties this contract serves
+	Uses      map[string]string // callee name -> aspect of the callee contract to use at its call sites
 	File      string
 	Line      int
 	PkgPath   string // package of the contract file
@@ -96,7 +97,7 @@ type ContractSet struct {
 	Axioms []*Axiom
 }
 
-var kwRe = regexp.MustCompile(`^(func|extern|fun|ofun|axiom|lemma|aspect|requires|ensures|modifies|decreases|loop|pure|fresh|havocs|maypanic|panics|inline|assumed|props|noframe)\b`)
+var kwRe = regexp.MustCompile(`^(func|extern|fun|ofun|axiom|lemma|aspect|requires|ensures|modifies|decreases|loop|pure|fresh|havocs|maypanic|panics|inline|assumed|props|noframe|uses)\b`)
 
 type rawItem struct {
 	kw   string
@@ -225,6 +226,18 @@ func (cs *ContractSet) load(path, pkgPath string) error {
 			case "props":
 				for _, p := range strings.Split(it.text, ",") {
 					cur.Props = append(cur.Props, strings.TrimSpace(p))
+				}
+			case "uses":
+				// uses <aspect> for f1, f2
+				parts := strings.SplitN(it.text, " for ", 2)
+				if len(parts) != 2 {
+					return fail(it, "uses: expected 'uses <aspect> for f1, f2'")
+				}
+				if cur.Uses == nil {
+					cur.Uses = map[string]string{}
+				}
+				for _, f := range strings.Split(parts[1], ",") {
+					cur.Uses[strings.TrimSpace(f)] = strings.TrimSpace(parts[0])
 				}
 			case "pure":
 				cur.Pure = true
